@@ -328,3 +328,97 @@ pub fn mont_sparse(m: &N) -> BoxedStrategy<Num> {
         })
         .boxed()
 }
+
+/// Target values for intermediate results: Montgomery-sparse, small / near-modulus / limb-pattern
+/// values, and a few uniform ones.
+pub fn structured_target() -> BoxedStrategy<Num> {
+    prop_oneof![4 => mont_sparse(&Q.m), 3 => fq_special(), 1 => (0u32..4, any::<bool>()).prop_map(|(k, neg)| Num(if neg { Q.neg(&N::from(k)) } else { N::from(k) }))].boxed()
+}
+
+/// Elligator inputs r0 constructed so that one intermediate value of the map (r, the two factors of
+/// the denominator, den, num, num*den, r-1, n1, n2) equals a structured target: the defining
+/// polynomial is solved for r and r/zeta's square root taken. Total: when the chosen site has no
+/// preimage the other sites are tried in order, then the target itself is returned.
+pub fn r0_targeted() -> BoxedStrategy<Num> {
+    use crate::refmodel::CURVE;
+    (0usize..9, structured_target(), any::<u16>())
+        .prop_map(|(site, t, i)| {
+            for k in 0..9 {
+                let v = CURVE.elligator_preimages((site + k) % 9, &t.0);
+                if !v.is_empty() {
+                    return Num(v[pick(i, v.len())].clone());
+                }
+            }
+            t
+        })
+        .boxed()
+}
+
+/// Decoder inputs s (either sign) constructed so that one intermediate value of decoding
+/// (s^2, u1, u2, u2*u1^2, 1+s^2, 2*s*u1) equals a structured target.
+pub fn s_targeted() -> BoxedStrategy<Num> {
+    use crate::refmodel::CURVE;
+    (0usize..6, structured_target(), any::<u16>())
+        .prop_map(|(site, t, i)| {
+            for k in 0..6 {
+                let v = CURVE.decode_preimages((site + k) % 6, &t.0);
+                if !v.is_empty() {
+                    return Num(v[pick(i, v.len())].clone());
+                }
+            }
+            t
+        })
+        .boxed()
+}
+
+/// Field elements whose *Montgomery representation* (R = 2^(64*limbs), shared by both backends) has one
+/// 32-bit limb forced to a boundary pattern (0, 1, 2, 2^32-1, 2^32-2, 2^31, or the modulus' own limb
+/// +-1) while all other limbs are random. Half of the time the forced limb is limb 0: the moduli of Fq
+/// and Fp have low limb 1, so the generated code's final conditional subtraction / add-back borrows or
+/// carries out of limb 0 only for such values.
+pub fn mont_forced(m: &N) -> BoxedStrategy<Num> {
+    let m = m.clone();
+    let nlimbs64 = ((m.bits() + 63) / 64) as usize;
+    let n32 = nlimbs64 * 2;
+    let rinv = {
+        let r = (N::one() << (64 * nlimbs64)) % &m;
+        r.modpow(&(&m - 2u32), &m)
+    };
+    let bits = m.bits();
+    (prop_oneof![4 => Just(0usize), 3 => 0usize..n32], 0u8..9, proptest::collection::vec(any::<u32>(), n32), any::<bool>())
+        .prop_map(move |(i, pat, mut limbs, above)| {
+            let mlimb = m.to_u32_digits().get(i).copied().unwrap_or(0);
+            limbs[i] = match pat {
+                0 => 0,
+                1 => 1,
+                2 => 2,
+                3 => u32::MAX,
+                4 => u32::MAX - 1,
+                5 => 0x8000_0000,
+                6 => mlimb.wrapping_sub(1),
+                7 => mlimb.wrapping_add(1),
+                _ => mlimb,
+            };
+            let mut t = N::zero();
+            for (k, w) in limbs.iter().enumerate() {
+                t += N::from(*w) << (32 * k);
+            }
+            // bring below the modulus without touching the forced limb where possible
+            t &= (N::one() << (bits - 1)) - 1u32;
+            if above && &t + (N::one() << (bits - 1)) < m {
+                t += N::one() << (bits - 1);
+            }
+            if i == n32 - 1 || (bits - 1) / 32 == i as u64 {
+                t %= &m;
+            }
+            Num((t * &rinv) % &m)
+        })
+        .boxed()
+}
+
+/// the low 32-bit limb of the Montgomery representation of v
+pub fn mont_low_limb(v: &N, m: &N) -> u32 {
+    let nlimbs64 = ((m.bits() + 63) / 64) as usize;
+    let t = (v << (64 * nlimbs64)) % m;
+    t.to_u32_digits().first().copied().unwrap_or(0)
+}
